@@ -82,8 +82,8 @@ PROPS["C06"] = dict(
 
 PROPS["C07"] = dict(
     level="proof",
-    verus=["c01_lookup", "c04_partition", "c04_precedence", "c10_engine"],
-    labels=["C07.", "C01.check", "C04.check.important", "C04.check.matched", "C04.check.exception", "C04.new.importants", "C04.new.exceptions", "C04.new.tagged", "C04.new.csp"] + MASK,
+    verus=["c01_lookup", "c04_partition", "c04_precedence", "c10_engine", "c05_optimizer"],
+    labels=["C07.", "C05.key.", "C01.check", "C04.check.important", "C04.check.matched", "C04.check.exception", "C04.new.importants", "C04.new.exceptions", "C04.new.tagged", "C04.new.csp"] + MASK,
     kani=[],
     trusted=["R6: the filter/clone iterator chain in tags_with_set computes the stated sub-sequence",
              "enable_tags/disable_tags set algebra (iterator chains) not under contract",
@@ -97,21 +97,43 @@ PROPS["C07"] = dict(
 
 PROPS["C01"] = dict(
     level="proof",
-    verus=["c01_lookup"],
-    labels=["C01."] + MASK,
+    verus=["c01_tokenizer", "c01_get_tokens", "c01_lookup", "c04_partition", "c04_precedence"],
+    labels=["C01.", "C04.new.", "C04.check."] + MASK,
     kani=[],
-    trusted=["per-rule matcher uninterpreted (C02/C03)", "probe sequence of a request (iterator chain) materialised (R5)"],
-    assumptions=["no 64-bit hash collision"],
-    level_text="Verus proves check/check_all return exactly the matching, tag-active rules of the probed buckets",
-    level_note="index completeness of the bucket choice is in progress",
+    trusted=["per-rule matcher uninterpreted (C02/C03)", "probe sequence of a request (iterator chain) materialised (R5)",
+             "seahash (uninterpreted), char::is_alphanumeric (uninterpreted token alphabet)",
+             "char_indices(): offsets are increasing character boundaries starting at 0 (R5 helper contract)",
+             "bucket choice in NetworkFilterList::new / add_filter (best token among get_tokens) not yet under contract",
+             "the string-level lemma 'a pattern token pinned as stated is a whole token of every matching URL' is not mechanised"],
+    assumptions=["no 64-bit hash collision", "URLs with fewer than 127 tokens (buffer limit clause of the tokenizer contract)"],
+    level_text="Verus proves, for all strings, that the tokenizer emits exactly the admissible maximal runs (sound and complete up to the buffer limit) with the skip rules the callers request, "
+               "that every token get_tokens files a rule under is of a kind guaranteed to be probed (anchor-derived skip rules from the statement, not from the code), that check/check_all return exactly the "
+               "matching tag-active rules of the probed buckets, and the category split and precedence",
+    level_note="bucket choice and the final string lemma are trusted/not mechanised; see trusted_base",
     design_ref="DESIGN.md section 4, C01",
+)
+
+PROPS["C13"] = dict(
+    level="proof",
+    verus=["c13_redirect", "c04_partition"],
+    labels=["C13.", "C04.new.redirects", "C04.new.filters", "C06.add_filter."] + MASK,
+    kani=[],
+    trusted=["memchr::memrchr = last occurrence (shim)", "<i32 as FromStr>::from_str uninterpreted", "[T]::contains = membership",
+             "resource lookup / data-URL formatting (ResourceStorage) not yet under contract"],
+    assumptions=[],
+    level_text="Verus proves the redirect selection block: the chosen option is a non-excepted matching redirect rule of maximal priority, priority = integer suffix after the last ':' (else 0), "
+               "resource name = text before it; and that redirect rules are filed in the redirect list and block only with the redirect (not redirect-rule) option",
+    level_note="exception cancellation compares whole option strings (as the code does; see DESIGN)",
+    design_ref="DESIGN.md section 4, C13",
 )
 
 PROPS["C10"] = dict(
     level="proof",
     verus=["c10_header", "c10_engine"],
     labels=["C10."],
-    kani=[],
+    kani=[KaniSet("src/data_format/mod.rs", "c10_header.rs", [
+        Harness("c10_header_twin", "C10.hdr.twin", "B", "twin of C10.hdr.*: every byte string of length <= 12 that does not reach the msgpack decoder (decoder stubbed; unwind 14, unwinding assertions on)"),
+    ])],
     trusted=["rmp-serde msgpack decoding (v0::DeserializeFormat::deserialize body)"],
     assumptions=[],
     level_text="Verus proves, for byte slices of any length, that the header/version dispatch never indexes out of bounds and maps each header class to the documented error",
